@@ -23,5 +23,10 @@ pub fn eval(program: &str) -> Result<Object, Error> {
     let code = Compiler::new().compile_ast(&ast)?;
     #[cfg(feature = "verif")]
     verif::phase();
-    VM::new().run(code)
+    let mut vm = VM::new();
+    let result = vm.run(code)?;
+
+    // the result outlives the VM
+    vm.untrace(result);
+    Ok(result)
 }
